@@ -231,7 +231,8 @@ Definition TInv (s : st) : Prop :=
   incr (tab s) /\ (2 <= length (tab s))%nat /\
   rmin s = hd 0 (tab s) /\ rmax s = last (tab s) 0 /\
   extrap s = (is_fun (mlo s) || is_fun (mhi s)) /\
-  (forall x, In x (tab s) -> fin x = true).
+  (forall x, In x (tab s) -> fin x = true) /\
+  vals s = tab s.      (* stored value i was computed at stored abscissa i *)
 (** adaptive bookkeeping *)
 Definition CInv (s : st) : Prop :=
   cnt s = length (pend s) /\ ((0 < cfg_thr s)%nat -> (cnt s < cfg_thr s)%nat).
@@ -260,9 +261,31 @@ Lemma Inv_reset s a : TInv s -> Inv (set_adapt s a 0 []).
 Proof. intro H. split; [exact H|]. split; [reflexivity|]. intro Ht. exact Ht. Qed.
 
 Lemma TInv_set_table s xf : incr xf -> (2 <= length xf)%nat -> (forall x, In x xf -> fin x = true) ->
-  TInv (set_table s xf (qmin xf) (qmax xf) (is_fun (mlo s) || is_fun (mhi s))).
+  TInv (set_table s xf xf (qmin xf) (qmax xf) (is_fun (mlo s) || is_fun (mhi s))).
 Proof.
   intros Hi Hl Hf _. cbn. repeat split; auto using qmin_incr, qmax_incr.
+Qed.
+
+Lemma select_filter {A} (f : A -> bool) l : select (map f l) l = filter f l.
+Proof. induction l as [|x r IH]; [reflexivity|]. cbn [map select filter]. destruct (f x); rewrite IH; reflexivity. Qed.
+
+(** [_interpolate(x, fx)]: rows are kept by the finiteness of fx, abscissa and value at the
+    same index stay together; then either a valid knot sequence becomes the table or
+    ValueError and nothing changes *)
+Lemma interpolate2_cases s xs ys :
+  let xf := select (map fin ys) xs in
+  let yf := select (map fin ys) ys in
+  (incr xf /\ (2 <= length xf)%nat /\
+   interpolate2 fin s xs ys =
+   (set_table s xf yf (qmin xf) (qmax xf) (is_fun (mlo s) || is_fun (mhi s)), Ok tt))
+  \/ (~ (incr xf /\ (2 <= length xf)%nat) /\ interpolate2 fin s xs ys = (s, Err EValue)).
+Proof.
+  intros xf yf. unfold interpolate2. fold xf. fold yf.
+  destruct ((2 <=? length xf)%nat) eqn:E1; cbn [andb].
+  - destruct (incrb xf) eqn:E2.
+    + left. apply Nat.leb_le in E1. auto using incrb_incr.
+    + right. split; [|reflexivity]. intros [Hi _]. apply incr_incrb in Hi. congruence.
+  - right. split; [|reflexivity]. intros [_ Hl]. apply Nat.leb_gt in E1. lia.
 Qed.
 
 (** [interpolate]: either the filtered points are a valid knot sequence and become the table
@@ -271,15 +294,11 @@ Qed.
 Lemma interpolate_cases s xs :
   let xf := filter fin xs in
   (incr xf /\ (2 <= length xf)%nat /\
-   interpolate fin s xs = (set_table s xf (qmin xf) (qmax xf) (is_fun (mlo s) || is_fun (mhi s)), Ok tt))
+   interpolate fin s xs = (set_table s xf xf (qmin xf) (qmax xf) (is_fun (mlo s) || is_fun (mhi s)), Ok tt))
   \/ (~ (incr xf /\ (2 <= length xf)%nat) /\ interpolate fin s xs = (s, Err EValue)).
 Proof.
-  intro xf. unfold interpolate. fold xf.
-  destruct ((2 <=? length xf)%nat) eqn:E1; cbn [andb].
-  - destruct (incrb xf) eqn:E2.
-    + left. apply Nat.leb_le in E1. auto using incrb_incr.
-    + right. split; [|reflexivity]. intros [Hi _]. apply incr_incrb in Hi. congruence.
-  - right. split; [|reflexivity]. intros [_ Hl]. apply Nat.leb_gt in E1. lia.
+  intro xf. unfold interpolate. pose proof (interpolate2_cases s xs xs) as H. cbn zeta in H.
+  rewrite select_filter in H. exact H.
 Qed.
 
 Lemma interpolate_good s xs : Inv s -> Good s (fst (interpolate fin s xs)).
@@ -292,10 +311,11 @@ Qed.
 
 (** re-interpolating the stored table always succeeds and changes only the extrapolate flag *)
 Lemma interpolate_tab s : TInv s -> hasT s = true ->
-  interpolate fin s (tab s) =
-  (set_table s (tab s) (rmin s) (rmax s) (is_fun (mlo s) || is_fun (mhi s)), Ok tt).
+  interpolate2 fin s (tab s) (vals s) =
+  (set_table s (tab s) (tab s) (rmin s) (rmax s) (is_fun (mlo s) || is_fun (mhi s)), Ok tt).
 Proof.
-  intros HT Hh. destruct (HT Hh) as [Hi [Hl [Hmin [Hmax [_ Hf]]]]].
+  intros HT Hh. destruct (HT Hh) as [Hi [Hl [Hmin [Hmax [_ [Hf Hv]]]]]]. rewrite Hv.
+  change (interpolate2 fin s (tab s) (tab s)) with (interpolate fin s (tab s)).
   destruct (interpolate_cases s (tab s)) as [[_ [_ E]]|[N _]].
   - rewrite E. rewrite (filter_all fin (tab s) Hf). rewrite (qmin_incr _ Hi), (qmax_incr _ Hi).
     rewrite <- Hmin, <- Hmax. reflexivity.
@@ -341,12 +361,35 @@ Proof.
   intro H. rewrite !filter_app, !app_length. rewrite (filter_all f l2 H). lia.
 Qed.
 
+(** the points an extension appends below / above (after the resolution cap) *)
+Definition ext_lo (s : st) (newMin : Q) (pLo : nat) : list Q :=
+  let p := Nat.min pLo (fit (rmin s - newMin) (rmax s - rmin s)) in
+  if Qlt_bool newMin (rmin s) && (0 <? p)%nat then linspace_open newMin (rmin s) p else [].
+Definition ext_hi (s : st) (newMax : Q) (pHi : nat) : list Q :=
+  let p := Nat.min pHi (fit (newMax - rmax s) (rmax s - rmin s)) in
+  if Qlt_bool (rmax s) newMax && (0 <? p)%nat then tl (linspace (rmax s) newMax (S p)) else [].
+
+(** with a table (whose values are paired with its abscissae) an extension interpolates the
+    function on  new lower block ++ old abscissae ++ new upper block *)
+Lemma extend_unfold s a b pLo pHi : TInv s -> hasT s = true ->
+  extend fin s a b pLo pHi =
+  match interpolate fin s (ext_lo s a pLo ++ tab s ++ ext_hi s b pHi) with
+  | (s', Ok _) => ((if adaptive s' then set_adapt s' true 0 [] else s'), Ok tt)
+  | r => r
+  end.
+Proof.
+  intros HT Hh. destruct (HT Hh) as [_ [_ [_ [_ [_ [_ Hv]]]]]].
+  unfold extend, ext_lo, ext_hi, interpolate. rewrite Hh, Hv. reflexivity.
+Qed.
+
 Lemma extend_total s newMin newMax pLo pHi : TInv s -> hasT s = true ->
   exists s', extend fin s newMin newMax pLo pHi = (s', Ok tt).
 Proof.
-  intros HT Hh. unfold extend. rewrite Hh. cbn [negb].
-  destruct (extend_points_incr s newMin newMax pLo pHi HT Hh) as [Hi _].
-  destruct (HT Hh) as [_ [Hl [_ [_ [_ Hf]]]]].
+  intros HT Hh. rewrite extend_unfold by assumption. unfold ext_lo, ext_hi.
+  destruct (extend_points_incr s newMin newMax
+              (Nat.min pLo (fit (rmin s - newMin) (rmax s - rmin s)))
+              (Nat.min pHi (fit (newMax - rmax s) (rmax s - rmin s))) HT Hh) as [Hi _].
+  destruct (HT Hh) as [_ [Hl [_ [_ [_ [Hf _]]]]]].
   match goal with |- context [interpolate fin s ?X] =>
     destruct (interpolate_cases s X) as [[_ [_ E]]|[N _]] end.
   - rewrite E. eexists; reflexivity.
@@ -356,7 +399,9 @@ Qed.
 
 Lemma extend_good s newMin newMax pLo pHi : Inv s -> Good s (fst (extend fin s newMin newMax pLo pHi)).
 Proof.
-  intro HI. unfold extend. destruct (hasT s); cbn [negb]; [|apply newTable_good; exact HI].
+  intro HI. destruct (hasT s) eqn:Hh.
+  2:{ unfold extend. rewrite Hh. cbn [negb]. apply newTable_good; exact HI. }
+  rewrite extend_unfold by (exact (proj1 HI) || exact Hh).
   match goal with |- context [interpolate fin s ?X] =>
     pose proof (interpolate_good s X HI) as G; destruct (interpolate fin s X) as [s' [u|e]] end;
     cbn [fst] in *; [|exact G].
@@ -447,19 +492,26 @@ Lemma setModes_good s a b : Inv s -> Good s (fst (setModes fin s a b)).
 Proof.
   intros [HT HC]. unfold setModes. destruct (hasT (set_modes s a b)) eqn:Hh.
   - assert (HT1 : incr (tab s) /\ (2 <= length (tab s))%nat /\ rmin s = hd 0 (tab s) /\
-                  rmax s = last (tab s) 0 /\ (forall x, In x (tab s) -> fin x = true)).
-    { destruct (HT Hh) as [? [? [? [? [? ?]]]]]. auto. }
-    destruct HT1 as [Hi [Hl [Hmin [Hmax Hf]]]].
-    destruct (interpolate_cases (set_modes s a b) (tab (set_modes s a b))) as [[_ [_ E]]|[N _]].
+                  rmax s = last (tab s) 0 /\ (forall x, In x (tab s) -> fin x = true) /\
+                  vals s = tab s).
+    { destruct (HT Hh) as [? [? [? [? [? [? ?]]]]]]. repeat split; assumption. }
+    destruct HT1 as [Hi [Hl [Hmin [Hmax [Hf Hv]]]]].
+    cbn [tab vals set_modes]. rewrite Hv.
+    change (interpolate2 fin (set_modes s a b) (tab s) (tab s)) with
+      (interpolate fin (set_modes s a b) (tab s)).
+    destruct (interpolate_cases (set_modes s a b) (tab s)) as [[_ [_ E]]|[N _]].
     + rewrite E. cbn [fst]. split; [split|reflexivity]; [|exact HC].
-      apply TInv_set_table; cbn [tab set_modes]; rewrite (filter_all fin (tab s) Hf); auto.
-    + exfalso. apply N. cbn [tab set_modes]. rewrite (filter_all fin (tab s) Hf). auto.
+      apply TInv_set_table; rewrite (filter_all fin (tab s) Hf); auto.
+    + exfalso. apply N. rewrite (filter_all fin (tab s) Hf). auto.
   - cbn [fst]. split; [split|reflexivity]; [|exact HC]. intro H. cbn in H, Hh. congruence.
 Qed.
 
 Lemma writeRead_good s : Inv s -> Good s (fst (writeRead fin s)).
 Proof.
-  intro HI. unfold writeRead. destruct (hasT s); [apply interpolate_good; exact HI|apply Good_refl; exact HI].
+  intro HI. unfold writeRead. destruct (hasT s) eqn:Hh; [|apply Good_refl; exact HI].
+  rewrite (interpolate_tab s (proj1 HI) Hh). cbn [fst]. split; [|reflexivity].
+  destruct HI as [HT HC]. split; [|exact HC]. intros _.
+  destruct (HT Hh) as [? [? [? [? [? [? ?]]]]]]. cbn. repeat split; auto.
 Qed.
 
 Lemma step_good s o : Inv s -> Good s (fst (step fin s o)).
@@ -475,6 +527,9 @@ Proof.
   - cbn [fst]. apply Good_refl in HI. exact HI.
   - pose proof (schedule_good s pts HI) as G. destruct (schedule fin s pts); exact G.
   - pose proof (writeRead_good s HI) as G. destruct (writeRead fin s); exact G.
+  - pose proof (interpolate_good s xs HI) as G. destruct (interpolate fin s xs); exact G.
+  - pose proof (interpolate_good s xs HI) as G. destruct (interpolate fin s xs); exact G.
+  - cbn [fst]. apply Good_refl. exact HI.
 Qed.
 
 Lemma run_good ops : forall s, Inv s -> Good s (run fin s ops).
@@ -811,12 +866,13 @@ Qed.
 Lemma extend_counters s a b pl ph : cnt s = 0%nat -> pend s = [] ->
   cnt (fst (extend fin s a b pl ph)) = 0%nat /\ pend (fst (extend fin s a b pl ph)) = [].
 Proof.
-  intros Hc Hp. unfold extend, newTable.
-  assert (HI : forall X, cnt (fst (interpolate fin s X)) = 0%nat /\ pend (fst (interpolate fin s X)) = []).
-  { intro X. destruct (interpolate_cases s X) as [[_ [_ E]]|[_ E]]; rewrite E; cbn; auto. }
+  intros Hc Hp. unfold extend, newTable, interpolate.
+  assert (HI : forall X Y, cnt (fst (interpolate2 fin s X Y)) = 0%nat /\
+                           pend (fst (interpolate2 fin s X Y)) = []).
+  { intros X Y. destruct (interpolate2_cases s X Y) as [[_ [_ E]]|[_ E]]; rewrite E; cbn; auto. }
   destruct (hasT s); cbn [negb]; [|apply HI].
-  match goal with |- context [interpolate fin s ?X] =>
-    specialize (HI X); destruct (interpolate fin s X) as [s' [u|e]] end; cbn [fst] in *; [|exact HI].
+  match goal with |- context [interpolate2 fin s ?X ?Y] =>
+    specialize (HI X Y); destruct (interpolate2 fin s X Y) as [s' [u|e]] end; cbn [fst] in *; [|exact HI].
   destruct (adaptive s'); [cbn; auto|exact HI].
 Qed.
 
@@ -892,20 +948,24 @@ Qed.
 Lemma roundtrip_l s : Inv s -> hasT s = true -> writeRead fin s = (s, Ok tt).
 Proof.
   intros [HT _] Hh. unfold writeRead. rewrite Hh. rewrite interpolate_tab by assumption.
-  destruct (HT Hh) as [_ [_ [_ [_ [Hex _]]]]]. rewrite <- Hex.
+  destruct (HT Hh) as [_ [_ [_ [_ [Hex [_ Hv]]]]]]. rewrite <- Hex. rewrite <- Hv at 2.
   destruct s; cbn in *. subst. reflexivity.
 Qed.
 
 Lemma setModes_spec_l s a b : Inv s -> hasT s = true ->
-  exists s', setModes fin s a b = (s', Ok tt) /\ tab s' = tab s /\ rmin s' = rmin s /\
+  exists s', setModes fin s a b = (s', Ok tt) /\ tab s' = tab s /\ vals s' = vals s /\
+             rmin s' = rmin s /\
              rmax s' = rmax s /\ mlo s' = a /\ mhi s' = b /\ extrap s' = (is_fun a || is_fun b).
 Proof.
   intros [HT _] Hh. unfold setModes. cbn [hasT set_modes]. rewrite Hh.
-  destruct (HT Hh) as [Hi [Hl [Hmin [Hmax [_ Hf]]]]].
-  destruct (interpolate_cases (set_modes s a b) (tab (set_modes s a b))) as [[_ [_ E]]|[N _]].
+  destruct (HT Hh) as [Hi [Hl [Hmin [Hmax [_ [Hf Hv]]]]]].
+  cbn [tab vals set_modes]. rewrite Hv.
+  change (interpolate2 fin (set_modes s a b) (tab s) (tab s)) with
+    (interpolate fin (set_modes s a b) (tab s)).
+  destruct (interpolate_cases (set_modes s a b) (tab s)) as [[_ [_ E]]|[N _]].
   - rewrite E. eexists; split; [reflexivity|]. cbn. rewrite (filter_all fin (tab s) Hf).
     rewrite (qmin_incr _ Hi), (qmax_incr _ Hi). rewrite <- Hmin, <- Hmax. repeat split; reflexivity.
-  - exfalso. apply N. cbn [tab set_modes]. rewrite (filter_all fin (tab s) Hf). auto.
+  - exfalso. apply N. rewrite (filter_all fin (tab s) Hf). auto.
 Qed.
 
 (* ------------------------------------------------------------------------------------ *)
@@ -914,17 +974,17 @@ Qed.
 
 Definition Keeps (s s' : st) : Prop := hasT s' = true /\ mlo s' = mlo s /\ mhi s' = mhi s.
 
-Lemma interpolate_keeps s X s' : interpolate fin s X = (s', Ok tt) -> Keeps s s'.
+Lemma interpolate_keeps s X Y s' : interpolate2 fin s X Y = (s', Ok tt) -> Keeps s s'.
 Proof.
-  intro H. destruct (interpolate_cases s X) as [[_ [_ E]]|[_ E]]; rewrite E in H; inversion H; subst.
+  intro H. destruct (interpolate2_cases s X Y) as [[_ [_ E]]|[_ E]]; rewrite E in H; inversion H; subst.
   repeat split.
 Qed.
 
 Lemma extend_keeps s a b pl ph s' : extend fin s a b pl ph = (s', Ok tt) -> Keeps s s'.
 Proof.
-  unfold extend, newTable. destruct (hasT s); cbn [negb]; [|apply interpolate_keeps].
-  match goal with |- context [interpolate fin s ?X] =>
-    pose proof (interpolate_keeps s X) as K; destruct (interpolate fin s X) as [s1 [[]|e]] end;
+  unfold extend, newTable, interpolate. destruct (hasT s); cbn [negb]; [|apply interpolate_keeps].
+  match goal with |- context [interpolate2 fin s ?X ?Y] =>
+    pose proof (interpolate_keeps s X Y) as K; destruct (interpolate2 fin s X Y) as [s1 [[]|e]] end;
     intro H; inversion H; subst.
   specialize (K _ eq_refl). destruct (adaptive s1); exact K.
 Qed.
@@ -1105,9 +1165,18 @@ Qed.
 Theorem abscissae_sorted fin s : reachable fin s -> hasT s = true ->
   incr (tab s) /\ (2 <= length (tab s))%nat /\ (forall x, In x (tab s) -> fin x = true).
 Proof.
-  intros R Hh. destruct (proj1 (reachable_inv fin s R) Hh) as [? [? [_ [_ [_ ?]]]]]. auto.
+  intros R Hh. destruct (proj1 (reachable_inv fin s R) Hh) as [? [? [_ [_ [_ [? _]]]]]]. auto.
 Qed.
 Print Assumptions abscissae_sorted.
+
+(** VALUE PAIRING: whatever preceded (extensions, re-reads, mode changes, user tables in any
+    order), the value stored at index i is the function's value AT the abscissa stored at index
+    i -- no operation permutes, shifts or drops one column without the other *)
+Theorem values_paired fin s : reachable fin s -> hasT s = true -> vals s = tab s.
+Proof.
+  intros R Hh. destruct (proj1 (reachable_inv fin s R) Hh) as [_ [_ [_ [_ [_ [_ ?]]]]]]. assumption.
+Qed.
+Print Assumptions values_paired.
 
 (** the reported range is [first, last] of the stored abscissae, and non-degenerate *)
 Theorem range_is_table_ends fin s : reachable fin s -> hasT s = true ->
@@ -1215,7 +1284,8 @@ Proof. intros R. apply roundtrip_l. exact (reachable_inv fin s R). Qed.
 Print Assumptions roundtrip_table.
 
 Theorem mode_change_rebuilds fin s a b : reachable fin s -> hasT s = true ->
-  exists s', setModes fin s a b = (s', Ok tt) /\ tab s' = tab s /\ rmin s' = rmin s /\
+  exists s', setModes fin s a b = (s', Ok tt) /\ tab s' = tab s /\ vals s' = vals s /\
+             rmin s' = rmin s /\
              rmax s' = rmax s /\ mlo s' = a /\ mhi s' = b /\ extrap s' = (is_fun a || is_fun b).
 Proof. intros R. apply setModes_spec_l. exact (reachable_inv fin s R). Qed.
 Print Assumptions mode_change_rebuilds.
